@@ -296,7 +296,7 @@ def main():
     env = spec_env()
     env.update(ghost)
     env.update(args)
-    env['result'] = result
+    env['__return__' if 'result' in args else 'result'] = result
     old_env = spec_env()
     old_env.update(old_args)
     try:
